@@ -119,8 +119,10 @@ impl ParsedDirective {
 /// May return [ParseError] if the query is empty, there is no query root, or
 /// the query root is not formatted properly
 fn try_get_query_root(document: &ExecutableDocument) -> Result<&Positioned<Field>, ParseError> {
-    if let Some(v) = document.fragments.values().next() {
-        return Err(ParseError::DocumentContainsNonInlineFragments(v.pos));
+    // The fragments are stored in a hash map, whose iteration order is arbitrary.
+    // Always point at the first fragment in document order.
+    if let Some(pos) = document.fragments.values().map(|fragment| fragment.pos).min() {
+        return Err(ParseError::DocumentContainsNonInlineFragments(pos));
     }
 
     match &document.operations {
